@@ -296,3 +296,38 @@ func H_C15_inject() {
 	}
 	vReach("end")
 }
+
+//verif:witness H_C15_inline end
+//verif:bound C15 all inline 'name!' entries through the REAL expression parser (ANTLR executed in the engine): a Refresh whose inline expression is malformed (5 shapes) must return an error; after Destroy a Refresh with the well-formed inline form must succeed and yield the same plugin as the flat form
+// H_C15_inline: bad inline expression is an error, and it leaves nothing behind.
+func H_C15_inline() {
+	vOpt("loop", 2000)
+	vOpt("preempt", 1)
+	savedHandles := loggerMap
+	loggerMap = map[string]*LoggerWrapper{}
+	defer func() {
+		Destroy()
+		global.init = false
+		loggerMap = savedHandles
+		TagAppDef.logger, TagBizDef.logger = nil, nil
+	}()
+	good := "AsyncLogger{tags=\"_app_def\",appenderRef=AppenderRef{ref=a1},bufferSize=128,buffer_full_policy=Block}"
+	if vChoose("badFirst", 2) == 1 {
+		bad := [5]string{"}", "AsyncLogger{tags=", "AsyncLogger{a.b[=1}", "L{a=b{c}}", "= {"}[vChoose("bad", 5)]
+		err := Refresh(map[string]string{"appender.a1.type": "Rec", "logger.l1!": bad})
+		vAssert(err != nil, "malformed-inline-expression-is-an-error")
+		Destroy()
+	}
+	err := Refresh(map[string]string{"appender.a1.type": "Rec", "logger.l1!": good})
+	vAssert(err == nil, "well-formed-inline-expression-accepted")
+	if err == nil {
+		var al *AsyncLogger
+		for _, l := range global.loggers {
+			if x, ok := l.(*AsyncLogger); ok {
+				al = x
+			}
+		}
+		vAssert(al != nil && al.BufferSize == 128 && al.BufferFullPolicy == BufferFullPolicyBlock && al.Tags == "_app_def" && len(al.AppenderRefs.AppenderRefs) == 1, "inline-form-yields-the-declared-plugin")
+	}
+	vReach("end")
+}
